@@ -1092,3 +1092,17 @@ def clip(a, lo, hi):
     if hi is not None:
         r = minimum(r, hi)
     return r
+
+
+def allclose(a, b, rtol=1e-05, atol=1e-08, equal_nan=False):
+    A, B_ = asarray(a), asarray(b)
+    shape = _broadcast_shapes(A.shape, B_.shape)
+    ea, eb = _broadcast_to(A, shape)._elems(), _broadcast_to(B_, shape)._elems()
+    r = True
+    for x, y in zip(ea, eb):
+        x, y = core._f(x), core._f(y)
+        d = x - y
+        d = -d if d < 0 else d
+        ay = -y if y < 0 else y
+        r = ch.b_and(r, d <= atol + rtol * ay)
+    return r
